@@ -4,7 +4,7 @@ From RecordUpdate Require Import RecordSet.
 From SasLexer Require Import Gen.TokenType Gen.ErrorKind Gen.Channel Gen.Unicode Model.Base Model.Core
      Model.Helpers Model.Numeric Model.Lexer1 Model.Lexer2 Model.Lexer3 Spec.RefLex
      Proofs.Generic Proofs.LexGeneric Proofs.Bom Proofs.SemiProgram Proofs.SemiCompose Proofs.RefLexProofs
-     Proofs.OcBase Proofs.OcSym Proofs.OcScan Proofs.OcNum Proofs.OcIdent Proofs.OcWhole.
+     Proofs.OcBase Proofs.OcSym Proofs.OcScan Proofs.OcNum Proofs.OcIdent Proofs.OcData Proofs.OcWhole.
 Import ListNotations RecordSetNotations.
 Open Scope N_scope.
 
@@ -24,7 +24,7 @@ Section All.
   Variable F : nat.
   Variable msep : bool.
   Variable limit : N.
-  Hypothesis block_ok : datalines_block_ok text bb F msep.
+  Let block_ok : datalines_block_ok text bb F msep := datalines_block_proved text bb F msep.
 
   Local Notation lexeme_sim := (OcWhole.lexeme_sim text bb F msep limit).
 
@@ -113,32 +113,31 @@ End All.
 Definition body_of (src : list char) : list char := snd (split_bom src).
 
 (** ** The lexer model is the reference lexer (release profile) on macro-free text without quote
-    characters; the datalines block is the one obligation still open (stated as a premise). *)
+    characters. *)
 Theorem lex_is_reflex_noquote msep src :
   okP (body_of src) = true ->
-  (forall bb, datalines_block_ok (body_of src) bb (S (List.length (body_of src))) msep) ->
   let r := lex (mkCfg false msep) src in
   let '(T, E, lit) := reflex src in
   lr_outcome r = None /\ s_aborted (lr_state r) = false /\
   map tv0 (b_toks (lr_buffer r)) = map rv T /\ map ev0 (lr_errors r) = map rve E /\
   b_lit (lr_buffer r) = lit.
 Proof.
-  intros Hok Hblock. cbv zeta. unfold lex, reflex, body_of in *. unfold split_bom in *.
+  intros Hok. cbv zeta. unfold lex, reflex, body_of in *. unfold split_bom in *.
   destruct src as [|c r].
   - cbn [snd] in *.
     pose proof (lex_text_is_reflex [] 0 0 msep okP okP_tail
-                  (all_classes [] 0 (S (List.length (@nil char))) msep _ (Hblock 0)) Hok) as H.
+                  (all_classes [] 0 (S (List.length (@nil char))) msep _) Hok) as H.
     cbv zeta in H. change (rs0) with (mkRstate false None [] 0) in H.
     destruct (reflex_loop (S (List.length (@nil char))) [] 0 (mkRstate false None [] 0) [] []) as [[T E] rs]. exact H.
   - change BOM with 65279 in *. destruct (c =? 65279) eqn:Eb.
     + cbn [snd] in *.
       pose proof (lex_text_is_reflex r (utf8_len c) 1 msep okP okP_tail
-                    (all_classes r (utf8_len c) (S (List.length r)) msep _ (Hblock (utf8_len c))) Hok) as H.
+                    (all_classes r (utf8_len c) (S (List.length r)) msep _) Hok) as H.
       cbv zeta in H. change (rs0) with (mkRstate false None [] 0) in H.
       destruct (reflex_loop (S (List.length r)) r (utf8_len c) (mkRstate false None [] 0) [] []) as [[T E] rs]. exact H.
     + cbn [snd] in *.
       pose proof (lex_text_is_reflex (c :: r) 0 0 msep okP okP_tail
-                    (all_classes (c :: r) 0 (S (List.length (c :: r))) msep _ (Hblock 0)) Hok) as H.
+                    (all_classes (c :: r) 0 (S (List.length (c :: r))) msep _) Hok) as H.
       cbv zeta in H. change (rs0) with (mkRstate false None [] 0) in H.
       destruct (reflex_loop (S (List.length (c :: r))) (c :: r) 0 (mkRstate false None [] 0) [] []) as [[T E] rs]. exact H.
 Qed.
